@@ -23,7 +23,7 @@ type mixed struct{ id string }
 func init() {
 	register("C01", func() e.Profile { return &mixed{"C01"} })
 	register("C20", func() e.Profile { return &mixed{"C20"} })
-	register("C15", func() e.Profile { return &mixed{"C15"} })
+	register("C15", newC15)
 }
 
 func (m *mixed) ID() string { return m.id }
@@ -122,6 +122,16 @@ func (m *mixed) Configure(r *e.RNG, tier string) e.Config {
 		c.Flags["w_traffic"] = r.Range(0, 2)
 	case "C15":
 		c.Replicas = 1
+		// a second denomination in every wallet (it can ride along in gov deposits) and,
+		// in a third of the runs, voters that mostly veto, so that deposits are burned
+		if r.Chance(0.6) {
+			c.ExtraDenoms = []string{"utest"}
+		}
+		if r.Chance(0.35) {
+			c.Flags["veto_bias"] = 1
+			c.Flags["w_gov_submit"], c.Flags["w_gov_deposit"], c.Flags["w_gov_vote"] = r.Range(2, 4), r.Range(3, 6), r.Range(4, 8)
+			c.GovVotingSecs = r.Range(3, 20)
+		}
 	}
 	return c
 }
@@ -136,6 +146,9 @@ func (m *mixed) Length(cfg e.Config, tier string) int {
 func (m *mixed) Tier(tier string) (uint64, int64) {
 	if tier == "thorough" {
 		return 1600, 2400
+	}
+	if m.id == "C15" {
+		return 320, 300 // one replica: cheap
 	}
 	return 64, 300
 }
